@@ -334,7 +334,18 @@ CLAIMED["C01"] = {
             "importer: the input lines are stored once each, in order, before the derived rows, come back with their "
             "columns, attributes and extra columns, print byte-identically with keep_order, and reopening gives the same "
             "content (import_all_once_in_order_gtf, printed_identical_gtf, printed_identical_gtf_file, reopen_same_gtf). "
-            "Not covered by a theorem: non-ID id_specs in the identity statement (correspondence and oracle only). Correspondence end to end on generated files of "
+            "Arbitrary id_spec and colliding keys (C01c): with merge_strategy create_unique - the strategy that keeps every "
+            "line - and ANY id_spec (attribute lists, ':field:' forms, callables incl. autoincrement:X, per-featuretype "
+            "dict) over features that have, lack or share the id attributes, create_db stores exactly one row per line in "
+            "input order under the key given by a closed form (keyAt: the key itself, or <key>_<n> from the one counter "
+            "that auto-numbering and renaming share), keys pairwise distinct, look-ups exact, the features print "
+            "byte-identically, reopening and re-importing give the same tables (import_all_once_in_order_any_ids, "
+            "printed_identical_any_ids_file, reopen_same_any_ids, reimport_equivalent_any_ids); side conditions: no listed "
+            "id attribute with several values (rejected, C04) and no explicit key of the shape <key or base>_<n> - the "
+            "latter is necessary: create_unique then raises IntegrityError (clash_integrity_error). Without collisions the "
+            "same holds for every strategy (no_collision_all_lines). GTF importer: colliding gene/transcript ids are all "
+            "kept (populate_gtf_any_ids, createDb_gtf_lines_kept; with inference on under the hypothesis that the "
+            "inference stage succeeds). Correspondence end to end on generated files of "
             "0-30 lines around checklines and on the repository's data files; oracle: byte comparison after import, "
             "reopen, re-import.",
     "note": "Trusted: Lean kernel + standard axioms; the models of the parser, iterator, importer and tables as validated "
